@@ -592,6 +592,29 @@ func runC05(c *core.Ctx) {
 			}
 		}
 	}
+	// ---- the position selected through a response key that an earlier selection has used already (the two selections merge): the
+	// later one asks for the leaf, the earlier one for another field - under an object, and under the elements of a list
+	for li, leaf := range c05Leaves {
+		for _, val := range c05Scalars() {
+			for pi, pos := range []string{"nested, key selected twice", "list-element, key selected twice"} {
+				for _, st := range strats {
+					idx++
+					if !c.OwnsIdx(idx) {
+						continue
+					}
+					c.Nontrivial()
+					c.Eval()
+					field := fmt.Sprintf("r%d_0", li)
+					other := fmt.Sprintf("r%d_0", (li+2)%len(c05Leaves))
+					q, path := "{ o { "+other+" } o { "+field+" } }", []interface{}{"o", field}
+					if pi == 1 {
+						q, path = "{ os { "+other+" } ... { os { "+field+" } } }", []interface{}{"os", 1, field}
+					}
+					c05One(c, c05Root(st, sdl, val.V), c05Wrap(leaf, 0), leaf, 0, q, path, val, pos, st)
+				}
+			}
+		}
+	}
 	// ---- requests nested as deep as the library's depth limit (MaxResolveDepth) and beyond: whatever the library does there
 	// (stop, complain), a value that is not of the declared type may not appear, and nothing disappears without an error
 	for _, d := range []int{ggql.MaxResolveDepth - 4, ggql.MaxResolveDepth - 3, ggql.MaxResolveDepth - 2, ggql.MaxResolveDepth - 1, ggql.MaxResolveDepth, ggql.MaxResolveDepth + 1, ggql.MaxResolveDepth + 5} {
